@@ -470,11 +470,13 @@ class State:
     def apply(self, i, op):
         k, ph = op['k'], op.get('ph')
         info = EvalInfo()
+        n_used = len(self.used)
         try:
             self._apply(i, op, k, ph, info)
         except Broken as b:
-            if info.irregular and self.mode == 'literal':
-                # the literal reading of an invalid usage names a file that does not exist / cannot be made
+            if (info.irregular and self.mode == 'literal') or (self.mode == 'bug' and len(self.used) > n_used):
+                # the literal reading of an invalid usage (or what a defect model accepts) names a file that does
+                # not exist / cannot be made
                 raise Reject('missing', str(b))
             raise
         finally:
@@ -615,6 +617,7 @@ class State:
             self.act_stdout = None
             return
         info = EvalInfo()
+        n_used = len(self.used)
         try:
             if k == 'exe':
                 pv = self.eval(act['expr'], 'act_exe', 'act', info)
@@ -630,7 +633,7 @@ class State:
             else:
                 raise Broken('unknown act ' + k)
         except Broken as b:
-            if info.irregular and self.mode == 'literal':
+            if (info.irregular and self.mode == 'literal') or (self.mode == 'bug' and len(self.used) > n_used):
                 raise Reject('missing', str(b))
             raise
         finally:
